@@ -1,8 +1,210 @@
+import RichModel.Model.Conc
 import RichModel.Drv.Proto
-/- Driver handlers for property C11 (stub: filled in when the model is built). -/
-namespace RichModel.Drv.C11
-open RichModel RichModel.Proto
+/- Driver handlers for property C11 (threads × console × live display; Model/Conc.lean).
 
-def handlers : List (String × (List String → String)) := []
+`conc_run  cfg  init  progs  events`   trace inclusion: replay a recorded real event trace on the model.
+  cfg    = `kind,W,H,record,transient,overflow`   kind 0 none / 1 live / 2 progress ; overflow 0 crop / 1 ellipsis / 2 visible
+  init   = line list `n:l1,l2,…` : live = lines of the initial renderable, progress = task descriptions
+  progs  = thread programs joined by `/`, operations joined by `|` :
+           `P<lines>`  `K<lines>#<lines>…`  `U<refresh>;<lines>`  `R`  `S`  `X`  `V<id>;<n>`
+  events = `tid:code` joined by `,` — the shared accesses in the order they happened on real rich; codes
+           aL rL aC rC aR rR (outermost lock operations)  hr h+ h-  ce  ps rs rr ws sr  w
+  answer = `ok#<observable of every event, joined by ;>#<captures>#<export_text>#<shape>#<hooks>#<started>`
+           or `reject@<index>:<what the model's thread does next>` when the trace is not a trace of the model.
+Between two events of a thread the model performs that thread's thread-local (silent) actions.
+-/
+namespace RichModel.Drv.C11
+open RichModel RichModel.Proto RichModel.Conc
+open RichModel.Live (Line Frame Overflow Task tasksTable)
+
+def encOp : TermOp → String
+  | .text s => "T" ++ encStr s
+  | .lf => "L"
+  | .cr => "C"
+  | .cuu n => "U" ++ toString n
+  | .el2 => "E"
+  | .showCursor => "S"
+  | .hideCursor => "H"
+  | .sgr _ => "G"
+  | .osc8 _ => "O"
+
+/-- adjacent text operations are one token on the implementation side -/
+def mergeText : List TermOp → List TermOp
+  | .text a :: .text b :: rest => mergeText (.text (a ++ b) :: rest)
+  | x :: rest => x :: mergeText rest
+  | [] => []
+termination_by l => l.length
+
+def encOps (l : List TermOp) : String := ",".intercalate ((mergeText l).map encOp)
+
+def encShape : Option (Nat × Nat) → String
+  | none => "-" | some (w, h) => toString w ++ "x" ++ toString h
+
+def decKind : String → Option DKind
+  | "0" => some .none | "1" => some .live | "2" => some .progress | _ => none
+
+def decOverflow : String → Option Overflow
+  | "0" => some .crop | "1" => some .ellipsis | "2" => some .visible | _ => none
+
+def decCfg (s : String) : Option (Cfg × Overflow) :=
+  match s.splitOn "," with
+  | [k, w, h, rec, tr, ov] => do
+    let kind ← decKind k
+    let ov ← decOverflow ov
+    some ({ kind := kind, width := ← w.toNat?, height := ← h.toNat?, record := decBool rec, transient := decBool tr }, ov)
+  | _ => none
+
+def decOp1 (s : String) : Option Op :=
+  match s.toList with
+  | ['R'] => some .refresh
+  | ['S'] => some .start
+  | ['X'] => some .stop
+  | 'P' :: r => some (.print (decStrList (String.ofList r)))
+  | 'K' :: r => some (.capture (if r.isEmpty then [] else ((String.ofList r).splitOn "#").map decStrList))
+  | 'U' :: r =>
+    match (String.ofList r).splitOn ";" with
+    | [rf, f] => some (.update (decStrList f) (decBool rf))
+    | _ => none
+  | 'V' :: r =>
+    match (String.ofList r).splitOn ";" with
+    | [i, n] => do some (.advance (← i.toNat?) (← n.toNat?))
+    | _ => none
+  | _ => none
+
+def decProg (s : String) : Option (List Op) :=
+  if s.isEmpty then some [] else (s.splitOn "|").mapM decOp1
+
+def decProgs (s : String) : Option (List (List Op)) := (s.splitOn "/").mapM decProg
+
+def decEvents (s : String) : Option (List (Nat × String)) :=
+  if s.isEmpty then some [] else
+    (s.splitOn ",").mapM (fun e => match e.splitOn ":" with
+      | [t, c] => t.toNat?.map (·, c)
+      | _ => none)
+
+def lockCode : Lock → String
+  | .live => "L" | .console => "C" | .record => "R"
+
+/-- The event code of thread-local state `l`'s next action, `none` if that action is silent. -/
+def visCode (l : Local) (a : Act) : Option String :=
+  match a with
+  | .acq lk => if lk ∈ l.held then none else some ("a" ++ lockCode lk)
+  | .rel lk => if (l.held.erase lk).contains lk then none else some ("r" ++ lockCode lk)
+  | .readHooks => some "hr"
+  | .hookPos => some "ps"
+  | .readRenderable => some "rr"
+  | .renderFrame => some "ws"
+  | .resetShape => some "ws"
+  | .restorePush => some "rs"
+  | .recAppend => some "ce"
+  | .write => if l.buffer.any nonEmpty then some "w" else none
+  | .setRenderable _ => some "sr"
+  | .tableRender => some "sr"
+  | .pushHook => some "h+"
+  | .popHook => some "h-"
+  | _ => none
+
+/-- Run the silent actions of thread `t`; stop in front of its next visible action (`some code`), or when
+the thread is finished / out of fuel (`none`). -/
+def advance (cfg : Cfg) : Nat → State → Nat → State × Option String
+  | 0, s, _ => (s, some "fuel")
+  | fuel + 1, s, t =>
+    let l := s.th t
+    match l.cont with
+    | [] =>
+      if l.prog.isEmpty then (s, none)
+      else match stepT cfg s t with
+        | some s' => advance cfg fuel s' t
+        | none => (s, some "stuck")
+    | g :: _ =>
+      if guardOn cfg l.depth l.hooked g.g then
+        match visCode l g.a with
+        | some c => (s, some c)
+        | none =>
+          match stepT cfg s t with
+          | some s' => advance cfg fuel s' t
+          | none => (s, some "blocked")
+      else
+        match stepT cfg s t with
+        | some s' => advance cfg fuel s' t
+        | none => (s, some "stuck")
+
+def posHeight : Option Item → String
+  | some { body := .pos (some (_, h)), .. } => toString h
+  | _ => "-"
+
+/-- The observable of the visible action thread `t` just performed (`s` before, `s'` after). -/
+def obsOf (cfg : Cfg) (code : String) (s s' : State) (t : Nat) : String :=
+  let l' := s'.th t
+  match code with
+  | "hr" => encBool l'.hooked
+  | "ps" => posHeight l'.buffer.getLast?
+  | "rs" => (match s.sh.shape with | some (_, h) => toString h | none => "-")
+  | "rr" => if cfg.kind == .live then encStrList l'.rcopy else "*"
+  | "ws" => encShape s'.sh.shape
+  | "sr" => if cfg.kind == .live then encStrList s'.sh.renderable else "*"
+  | "w" => (match s'.sh.file.getLast? with | some w => encOps (itemsOps w.items) | none => "?")
+  | _ => ""
+
+def replayEvents (cfg : Cfg) : List (Nat × String) → Nat → State → List String → Except String (State × List String)
+  | [], _, s, acc => .ok (s, acc.reverse)
+  | (t, c) :: rest, i, s, acc =>
+    let (s1, v) := advance cfg 100000 s t
+    match v with
+    | some c' =>
+      if c' == c then
+        match stepT cfg s1 t with
+        | some s2 => replayEvents cfg rest (i + 1) s2 (obsOf cfg c s1 s2 t :: acc)
+        | none => .error s!"reject@{i}:{c}:blocked"
+      else .error s!"reject@{i}:{c}:model-next={c'}"
+    | none => .error s!"reject@{i}:{c}:model-thread-finished"
+
+/-- After the last event every thread must be able to finish silently. -/
+def finishAll (cfg : Cfg) : Nat → State → Except String State
+  | 0, s => .ok s
+  | n + 1, s =>
+    match finishAll cfg n s with
+    | .error e => .error e
+    | .ok s1 =>
+      let (s2, v) := advance cfg 100000 s1 n
+      match v with
+      | none => .ok s2
+      | some c => .error s!"reject@end:thread{n}:model-next={c}"
+
+def exportOps (cfg : Cfg) (record : List Item) : List TermOp :=
+  itemsOps (record.filter (fun x => !isControl cfg.kind x.body))
+
+def initShared (cfg : Cfg) (ov : Overflow) (init : List Line) : Shared :=
+  match cfg.kind with
+  | .progress =>
+    let tasks : List Task := (List.range init.length).zip init |>.map (fun (i, d) => { id := i, desc := d, completed := 0, visible := true })
+    { overflow := ov, overflow0 := ov, tasks := tasks, renderable := tasksTable tasks }
+  | _ => { overflow := ov, overflow0 := ov, renderable := init }
+
+def inDomain (cfg : Cfg) (ov : Overflow) (progs : List (List Op)) : Bool :=
+  1 ≤ cfg.height && (ov != .ellipsis || 3 ≤ cfg.width) && progs.all (·.all (Op.applies cfg.kind))
+
+def handlers : List (String × (List String → String)) := [
+  ("conc_run", fun a => match a with
+    | [cfg, init, progs, events] =>
+      match decCfg cfg, decProgs progs, decEvents events with
+      | some (cfg, ov), some progs, some events =>
+        if !inDomain cfg ov progs then "unmodelled" else
+        let s0 := initState (initShared cfg ov (decStrList init)) progs
+        match replayEvents cfg events 0 s0 [] with
+        | .error e => e
+        | .ok (s1, obs) =>
+          match finishAll cfg progs.length s1 with
+          | .error e => e
+          | .ok s =>
+            let caps := "/".intercalate ((List.range progs.length).map (fun t =>
+              "!".intercalate ((s.th t).captured.map (fun c => encOps (itemsOps c)))))
+            let faults := (List.range progs.length).any (fun t => (s.th t).fault)
+            (if faults then "fault" else "ok") ++ "#" ++ ";".intercalate obs ++ "#" ++ caps ++ "#" ++
+              (if cfg.record then encOps (exportOps cfg s.sh.record) else "-") ++ "#" ++ encShape s.sh.shape ++ "#" ++
+              toString s.sh.hooks ++ "#" ++ (if cfg.kind == .none then "-" else encBool s.sh.started)
+      | _, _, _ => "unmodelled"
+    | _ => "bad-args")
+]
 
 end RichModel.Drv.C11
